@@ -979,6 +979,12 @@ ADVANCE_KEYS = {"core::iter::Iterator::next", "core::iter::DoubleEndedIterator::
 WRAPPING = {"core::num::wrapping_sub": "Sub", "core::num::wrapping_add": "Add", "core::num::wrapping_mul": "Mul"}
 
 
+# Vec operations that can change neither the contents nor the order of the elements (capacity management, size queries)
+NEUTRAL_VEC = {"alloc::vec::Vec::reserve", "alloc::vec::Vec::reserve_exact", "alloc::vec::Vec::shrink_to_fit", "alloc::vec::Vec::shrink_to",
+               "alloc::vec::Vec::capacity", "alloc::vec::Vec::len", "alloc::vec::Vec::is_empty", "alloc::vec::Vec::try_reserve",
+               "alloc::vec::Vec::try_reserve_exact"}
+
+
 def callee_base(key):
     """key without the @adt qualifier"""
     return key.split("@")[0] if isinstance(key, str) else key
